@@ -195,6 +195,38 @@ def trace_part(ctx):
     })
 
 
+def whole_to_trace(tid, sc, rn, rf):
+    conv = lambda r: {"fills": [dict(side=f[0], type=f[1], qty=str(f[2]), price=str(f[3]), minute=f[4]) for f in r['fills']],
+                      "trades": [[t['type'], str(t['qty']), str(t['entry']), str(t['exit']), str(t['pnl']), str(t['fee']),
+                                  str(t['opened']), str(t['closed']), "0", "0"] for t in r['trades']],
+                      "bal": [["USDT", str(r['wal'])]], "liq": 0, "exc": ("none" if r['exc'] == 'run' else r['exc']),
+                      "hooks": [], "reads": []}
+    tr = {"id": tid, "hdr": {"tf": sc['tf'], "chunk": sc['chunk'], "n": sum(len(e['raw']) for e in sc['hist']), "typ": "futures"},
+          "norm": conv(rn), "fast": conv(rf)}
+    it = dict(typ='futures', ttf='%dm' % sc['tf'], dtfs=[], n=0, chunk=sc['chunk'], warm=0, seed=tid, whole=sc)
+    return tr, it
+
+
+def whole_phase(ctx):
+    """thorough only: whole-run scenarios of the X01 model (scripted multi-row entries, partial exits, edits, rejections,
+    fees, leverage) executed on both real simulators; TLC judges C12 on them with the same differential trace spec
+    (precondition re-derived from the normal run)."""
+    from ..drivers import simwhole as W
+    rng = random.Random(ctx.seed + 77)
+    scens = [W.rand_whole(rng) for _ in range(1500)]
+    res = W.run_wholes(scens)
+    traces, bymap = [], {}
+    for j, (sc, (rn, rf)) in enumerate(zip(scens, res)):
+        tr, it = whole_to_trace(j + 1, sc, rn, rf)
+        traces.append(tr)
+        bymap[j + 1] = it
+    stats = {'judged': 0, 'agree': 0, 'discarded': {}}
+    judge(ctx, traces, bymap, 16, stats)
+    ctx.coverage["whole_run_scenarios"] = {"pairs": len(scens), "inside_precondition": stats['judged'], "agree": stats['agree'],
+                                           "discarded": stats['discarded']}
+    ctx.log("whole-run phase: %s" % ctx.coverage["whole_run_scenarios"])
+
+
 def run(ctx):
     ctx.assumptions += ["single symbol; candle series start aligned to every timeframe; warm-up a multiple of every timeframe",
                         "precondition decided by TLC on the normal run: <= 1 LIMIT/STOP execution per aligned window of "
@@ -203,6 +235,8 @@ def run(ctx):
     variant = c12_model.model_part(ctx)
     ctx.log("M done: %d states" % ctx.coverage.get("states", 0))
     trace_part(ctx)
+    if not ctx.quick:
+        whole_phase(ctx)
     bad = c12_model.binding_part(ctx, variant)
     ctx.log("binding done: %d scenarios" % ctx.coverage.get("model_scenarios_replayed_on_code", 0))
     if bad:
@@ -216,7 +250,16 @@ def run(ctx):
 
 def replay(ctx, rp):
     p = rp["payload"]
-    if "item" in p:
+    if "item" in p and "whole" in p["item"]:
+        from ..drivers import simwhole as W
+        R.warm_parent()
+        sc = p["item"]["whole"]
+        (rn, rf), = W.run_wholes([sc])
+        tr, it = whole_to_trace(1, sc, rn, rf)
+        stats = {'judged': 0, 'agree': 0, 'discarded': {}}
+        judge(ctx, [tr], {1: it}, 1, stats)
+        print("replay (whole-run scenario): normal fills %s | fast fills %s; %s" % (rn['fills'], rf['fills'], stats))
+    elif "item" in p:
         R.warm_parent()
         it = p["item"]
         (rn, rf), = run_pairs([it])
